@@ -215,6 +215,18 @@ CHECKS["C13"] = (
     "DESIGN.md section 3 / C13",
 )
 
+CHECKS["C20"] = (
+    "Hypothesis legacy trees x enumerated/drawn predicate subsets x skip_self/bottom_up vs the C05 reference; legacy xpath vs the C07 reference along parent chains",
+    "Seeded Hypothesis search over attached legacy trees (tuple and list child fields, tuples wider than 10); "
+    "dfs / bfs / gather with all (small trees) or drawn (prune, filter) predicate subsets x skip_self x "
+    "bottom_up are compared as sequences with the shared reference traversal; grammar-generated and "
+    "node-derived xpaths are matched on every node against the shared reference semantics evaluated along the "
+    "parent chain; malformed texts must raise only the definition error; calculate_xpath must spell every "
+    "node's chain on roots and change nothing on non-roots. Bounded exploration.",
+    "Trusts Hypothesis and the shared references (pbt/props/c20.py ref_order, pbt/xpath_ref.py).",
+    "DESIGN.md section 3 / C20",
+)
+
 NOT_YET = "check not built yet in this snapshot (see DESIGN.md section 9 build order); nothing is claimed"
 
 
